@@ -7,7 +7,7 @@ MAXITER = 40
 MAXFUEL = 4000
 
 
-VM_KNOWN = ["VM_StringOrdering", "VM_MissingFieldError", "VM_MissingKeyNull", "VM_DupKeyFirst", "VM_ForVarFlat", "VM_NoAbs", "VM_LenObjError"]
+VM_KNOWN = ["VM_StringOrdering", "VM_MissingFieldError", "VM_MissingKeyNull", "VM_DupKeyFirst", "VM_ForVarFlat", "VM_LenObjError"]
 
 
 def evaluate(progs, timeout=3000, dev=()):
@@ -162,6 +162,10 @@ def walk_exprs(e):
     elif k == "call":
         yield from walk_exprs(e["a"])
     elif k == "calln":
+        for x in e["as"]:
+            yield from walk_exprs(x)
+    elif k == "pipe":
+        yield from walk_exprs(e["x"])
         for x in e["as"]:
             yield from walk_exprs(x)
     elif k == "await":
